@@ -87,7 +87,7 @@ Definition should_cache (a : attrs) : bool :=
 
 (* ---------- configuration ---------- *)
 Record config := {
-  reg : list (string * cluster);   (* manager.clusters: lower-cased key -> ClusterInfo (names and aliases) *)
+  reg : list (string * cluster);   (* initial manager.clusters: lower-cased server name -> cluster (own names and aliases) *)
   servers : list (cluster * list server);  (* initial .spec.servers of each cluster (lists pairwise disjoint) *)
   sttl : Z; fttl : Z;              (* tokenSuccessCacheTTL / tokenFailureCacheTTL *)
   attl : Z; dttl : Z;              (* allowCacheTTL / denyCacheTTL *)
@@ -99,9 +99,6 @@ Fixpoint assoc {V} (k : string) (l : list (string * V)) : option V :=
   | [] => None
   | (k', v) :: r => if String.eqb k k' then Some v else assoc k r
   end.
-
-(* manager.Get: strings.ToLower(name), then the map *)
-Definition cluster_of (cfg : config) (h : host) : option cluster := assoc (to_lower h) (reg cfg).
 
 Definition init_servers (cfg : config) (c : cluster) : list server :=
   match assoc c (servers cfg) with Some l => l | None => [] end.
@@ -161,10 +158,17 @@ Definition skind (cfg : config) : kind sanswer sresult := {|
 |}.
 
 (* ---------- state ---------- *)
+(* a cache belongs to a host AND to the cluster (incarnation) that served the host when the cache was
+   created: sync.Map key struct{host, *ClusterInfo}.  Incarnations of one cluster name never coexist
+   (a ClusterInfo is stopped, and its caches dropped, before the next one is created), so the cluster
+   name identifies the live incarnation. *)
+Definition cid := (host * cluster)%type.
+Definition cid_eqb (a b : cid) : bool := (String.eqb (fst a) (fst b) && String.eqb (snd a) (snd b))%bool.
+
 (* per kind: caches (sync.Map host -> cache; cache: key -> (stored result, expiry)) and, per cluster,
    how many review calls of this kind the cluster has received (index into its answer oracle) *)
 Record kstate (R : Type) := {
-  kc : host -> key -> option (R * Z);
+  kc : cid -> key -> option (R * Z);
   kn : cluster -> nat }.
 Arguments kc {R}. Arguments kn {R}.
 
@@ -172,7 +176,15 @@ Arguments kc {R}. Arguments kn {R}.
    each endpoint, and which cluster a server currently belongs to *)
 Record epstate := {
   e_list : cluster -> list (server * (bool * bool));
-  e_own : server -> option cluster }.
+  e_own : server -> option cluster;
+  e_reg : string -> option cluster }.   (* manager.clusters NOW: lower-cased server name -> cluster *)
+
+(* manager.Get: strings.ToLower(name), then the map *)
+Definition cluster_of (E : epstate) (h : host) : option cluster := e_reg E (to_lower h).
+
+(* a cluster exists (has a running ClusterInfo) iff its own name is registered to it *)
+Definition live (E : epstate) (c : cluster) : bool :=
+  match e_reg E c with Some c' => String.eqb c' c | None => false end.
 
 Record state := {
   eps : epstate;
@@ -181,9 +193,9 @@ Record state := {
 
 Definition key_eqb (a b : key) : bool := list_eqb String.eqb a b.
 
-Definition upd_cache {R} (f : host -> key -> option (R * Z)) (h : host) (k : key) (v : option (R * Z))
-  : host -> key -> option (R * Z) :=
-  fun h' k' => if (String.eqb h' h && key_eqb k' k)%bool then v else f h' k'.
+Definition upd_cache {R} (f : cid -> key -> option (R * Z)) (h : cid) (k : key) (v : option (R * Z))
+  : cid -> key -> option (R * Z) :=
+  fun h' k' => if (cid_eqb h' h && key_eqb k' k)%bool then v else f h' k'.
 
 Definition upd_cnt (f : cluster -> nat) (c : cluster) (n : nat) : cluster -> nat :=
   fun c' => if String.eqb c' c then n else f c'.
@@ -195,7 +207,8 @@ Definition fresh_ep (srv : server) : server * (bool * bool) := (srv, (false, fal
 
 Definition init_eps (cfg : config) : epstate :=
   {| e_list := fun c => map fresh_ep (init_servers cfg c);
-     e_own := fun srv => find_owner srv (servers cfg) |}.
+     e_own := fun srv => find_owner srv (servers cfg);
+     e_reg := fun k => assoc k (reg cfg) |}.
 
 Definition init (cfg : config) : state :=
   {| eps := init_eps cfg; ts := init_k; ss := init_k |}.
@@ -209,7 +222,7 @@ Definition route (cfg : config) (s : state) (ho : option host) : (host * cluster
   match ho with
   | None => inr UNoInfo
   | Some h =>
-      match cluster_of cfg h with
+      match cluster_of (eps s) h with
       | None => inr UNotFound
       | Some c => if ready s c then inl (h, c) else inr UNoReady
       end
@@ -233,7 +246,7 @@ Definition call := (cluster * bool)%type.
 Definition serve {A R} (K : kind A R) (orc : cluster -> nat -> A) (st : kstate R)
            (h : host) (c : cluster) (k : key) (cacheable : bool) (now : Z) : kstate R * R * list call :=
   let hit := if k_bypass K then None
-             else match kc st h k with
+             else match kc st (h, c) k with
                   | Some (r, exp) => if k_valid K now exp then Some r else None
                   | None => None
                   end in
@@ -243,7 +256,7 @@ Definition serve {A R} (K : kind A R) (orc : cluster -> nat -> A) (st : kstate R
       let (a, n) := ask (k_retriable K) (k_retries K) (orc c) (kn st c) in
       let cache' := if k_bypass K then kc st
                     else match k_ttl K cacheable a with
-                         | Some ttl => upd_cache (kc st) h k (Some (k_res_of K a, now + ttl))
+                         | Some ttl => upd_cache (kc st) (h, c) k (Some (k_res_of K a, now + ttl))
                          | None => kc st
                          end in
       ({| kc := cache'; kn := upd_cnt (kn st) c (kn st c + n)%nat |}, k_res_of K a, repeat (c, true) n)
@@ -256,16 +269,17 @@ Definition request {A R} (cfg : config) (K : kind A R) (orc : cluster -> nat -> 
   | inl (h, c) => serve K orc st h c k cacheable now
   end.
 
-(* the goroutine started with each cache: <-cluster.Context().Done(); caches.Delete(host) *)
-Definition drop_cluster {R} (cfg : config) (c : cluster) (st : kstate R) : kstate R :=
-  {| kc := fun h k => match cluster_of cfg h with
-                      | Some c' => if String.eqb c' c then None else kc st h k
-                      | None => kc st h k
-                      end;
+(* the goroutine started with each cache: <-cluster.Context().Done(); caches.Delete(key) *)
+Definition drop_cluster {R} (c : cluster) (st : kstate R) : kstate R :=
+  {| kc := fun id k => if String.eqb (snd id) c then None else kc st id k;
      kn := kn st |}.
 
+(* the entry for k disappears from every cache of host h *)
 Definition evict {R} (h : host) (k : key) (st : kstate R) : kstate R :=
-  {| kc := upd_cache (kc st) h k None; kn := kn st |}.
+  {| kc := fun id k' => if (String.eqb (fst id) h && key_eqb k' k)%bool then None else kc st id k';
+     kn := kn st |}.
+Definition upd_reg (f : string -> option cluster) (k : string) (v : option cluster) :=
+  fun k' => if String.eqb k' k then v else f k'.
 
 Definition upd_list (f : cluster -> list (server * (bool * bool))) (c : cluster) (v : list (server * (bool * bool))) :=
   fun c' => if String.eqb c' c then v else f c'.
@@ -295,7 +309,11 @@ Inductive op :=
 | OEvictT (h : host) (tok : string)                     (* the host's token cache loses this entry (gc) *)
 | OEvictS (h : host) (a : attrs)                        (* the host's LRU cache loses this entry (eviction) *)
 | OAddEp (c : cluster) (srv : server)                   (* ClusterInfo.Sync with srv added to .spec.servers (a server of no cluster) *)
-| ORemoveEp (c : cluster) (srv : server).               (* ClusterInfo.Sync with srv removed from .spec.servers *)
+| ORemoveEp (c : cluster) (srv : server)                (* ClusterInfo.Sync with srv removed from .spec.servers *)
+| OName (c : cluster) (h : host)                        (* c's object gains server name h: AddOrUpdateForServerNames -> AddWithKey(h, c) *)
+| OUnname (c : cluster) (h : host)                      (* c's object loses server name h: AddOrUpdateForServerNames -> Delete(h), c keeps running *)
+| ODelete (c : cluster)                                 (* c's object is deleted: DeleteForServerNames -> DeleteWithStop for all its names *)
+| ORecreate (c : cluster).                              (* a deleted c is created again: new ClusterInfo (current server list, no aliases) *)
 
 Inductive out :=
 | OutT (r : tresult) (calls : list call)
@@ -310,27 +328,58 @@ Definition ep_apply (o : op) (E : epstate) : epstate :=
   match o with
   | OHealthy srv b =>
       match e_own E srv with
-      | Some c => {| e_list := upd_list (e_list E) c (set_srv srv (fun st => (b, snd st)) (e_list E c)); e_own := e_own E |}
+      | Some c => {| e_list := upd_list (e_list E) c (set_srv srv (fun st => (b, snd st)) (e_list E c)); e_own := e_own E; e_reg := e_reg E |}
       | None => E
       end
   | ODisabled srv b =>
       match e_own E srv with
-      | Some c => {| e_list := upd_list (e_list E) c (set_srv srv (fun st => (fst st, b)) (e_list E c)); e_own := e_own E |}
+      | Some c => {| e_list := upd_list (e_list E) c (set_srv srv (fun st => (fst st, b)) (e_list E c)); e_own := e_own E; e_reg := e_reg E |}
       | None => E
       end
   | ORestart c =>
-      {| e_list := upd_list (e_list E) c (map (fun e => fresh_ep (fst e)) (e_list E c)); e_own := e_own E |}
+      {| e_list := upd_list (e_list E) c (map (fun e => fresh_ep (fst e)) (e_list E c)); e_own := e_own E; e_reg := e_reg E |}
   | OAddEp c srv =>
       match e_own E srv with
       | Some _ => E
-      | None => {| e_list := upd_list (e_list E) c (e_list E c ++ [fresh_ep srv]); e_own := upd_own (e_own E) srv (Some c) |}
+      | None => {| e_list := upd_list (e_list E) c (e_list E c ++ [fresh_ep srv]); e_own := upd_own (e_own E) srv (Some c); e_reg := e_reg E |}
       end
   | ORemoveEp c srv =>
       match e_own E srv with
       | Some c' => if String.eqb c' c
-                   then {| e_list := upd_list (e_list E) c (del_srv srv (e_list E c)); e_own := upd_own (e_own E) srv None |}
+                   then {| e_list := upd_list (e_list E) c (del_srv srv (e_list E c)); e_own := upd_own (e_own E) srv None; e_reg := e_reg E |}
                    else E
       | None => E
+      end
+  | OName c h =>
+      let k := to_lower h in
+      if live E c
+      then match e_reg E k with
+           | None => {| e_list := e_list E; e_own := e_own E; e_reg := upd_reg (e_reg E) k (Some c) |}
+           | Some _ => E          (* already a name of c, or checkServerNameConflict rejects the update *)
+           end
+      else E
+  | OUnname c h =>
+      let k := to_lower h in
+      if String.eqb k c then E      (* a cluster's own name is always one of its server names *)
+      else match e_reg E k with
+           | Some c' => if String.eqb c' c
+                        then {| e_list := e_list E; e_own := e_own E; e_reg := upd_reg (e_reg E) k None |}
+                        else E
+           | None => E
+           end
+  | ODelete c =>
+      if live E c
+      then {| e_list := e_list E; e_own := e_own E;
+              e_reg := fun k => match e_reg E k with
+                                | Some c' => if String.eqb c' c then None else Some c'
+                                | None => None
+                                end |}
+      else E
+  | ORecreate c =>
+      match e_reg E c with
+      | Some _ => E                 (* still alive, or its name is taken by another cluster *)
+      | None => {| e_list := upd_list (e_list E) c (map (fun e => fresh_ep (fst e)) (e_list E c));
+                   e_own := e_own E; e_reg := upd_reg (e_reg E) c (Some c) |}
       end
   | _ => E
   end.
@@ -344,11 +393,11 @@ Definition step (cfg : config) (torc : cluster -> nat -> tanswer) (sorc : cluste
   | OAuthz ho a now =>
       let '(st', r, calls) := request cfg (skind cfg) sorc s (ss s) ho (sar_key a) (should_cache a) now in
       ({| eps := eps s; ts := ts s; ss := st' |}, OutS r calls)
-  | OHealthy _ _ | ODisabled _ _ | OAddEp _ _ | ORemoveEp _ _ =>
+  | OHealthy _ _ | ODisabled _ _ | OAddEp _ _ | ORemoveEp _ _ | OName _ _ | OUnname _ _ | ORecreate _ =>
       ({| eps := ep_apply o (eps s); ts := ts s; ss := ss s |}, OutNone)
-  | ORestart c =>
+  | ORestart c | ODelete c =>
       ({| eps := ep_apply o (eps s);
-          ts := drop_cluster cfg c (ts s); ss := drop_cluster cfg c (ss s) |}, OutNone)
+          ts := drop_cluster c (ts s); ss := drop_cluster c (ss s) |}, OutNone)
   | OEvictT h tok => ({| eps := eps s; ts := evict h (tkey tok) (ts s); ss := ss s |}, OutNone)
   | OEvictS h a => ({| eps := eps s; ts := ts s; ss := evict h (sar_key a) (ss s) |}, OutNone)
   end.
@@ -431,7 +480,7 @@ Definition stepx (cfg : config) torc sorc (s : state) (o : xop) : state * xout :
   | Ovl a b => let (s1, x) := step cfg torc sorc s a in
                let (s2, y) := step cfg torc sorc s1 b in (s2, R2 x y)
   | Chain h tok imp now =>
-      match cluster_of cfg h with
+      match cluster_of (eps s) h with
       | None => (s, RC None None None)       (* WithUpstreamInfo: "the request cluster is not being proxied" *)
       | Some c =>
           let (s1, xt) := step cfg torc sorc s (OAuthn (Some h) tok now) in
